@@ -52,6 +52,10 @@ func (output *Output) interpolateParameters(interpolator ParametersInterpolator)
 	}
 
 	for _, outputLanguage := range output.Languages {
+		if outputLanguage == nil {
+			continue // reported by OutputLanguages() as an empty language configuration
+		}
+
 		outputLanguage.interpolateParameters(output, interpolator)
 	}
 }
